@@ -13,7 +13,7 @@ fn mk(shape: &[usize], n: usize) -> (Array<u8>, Vec<u8>, ArrayFlags, bool) {
     let meta = if bits == 0 && !has_keys && kani::any() {
         ArrayMeta(None)
     } else {
-        ArrayMeta(Some(Arc::new(ArrayMetaInner { flags, map_keys: if has_keys { Some(MapKeys::default()) } else { None } })))
+        ArrayMeta(Some(Arc::new(ArrayMetaInner { flags, map_keys: if has_keys { Some(MapKeys::default()) } else { None }, ..Default::default() })))
     };
     (Array { shape: Shape(shape.to_vec()), data: Data(data.clone()), meta }, data, flags, has_keys)
 }
@@ -280,13 +280,238 @@ fn h_load_marks_small() {
     ck_recompute(&[0], 0);
     ck_recompute(&[1], 1);
 }
+/// C17: the two conversions between an array and its serialised representation (`ArrayRep`) are inverse on
+/// everything that is observable at run time: shape, elements, label and map keys.  (What serde does with an
+/// `ArrayRep` is outside this contract.)  Which fields are present is fixed per harness so that the verifier's
+/// control flow is concrete; their contents (and the flag bits) are symbolic.
+fn ck_rep_roundtrip(shape: &[usize], n: usize, absent: bool, has_label: bool, has_keys: bool) {
+    // element contents: the first one symbolic, the others fixed (the conversions never inspect them except to
+    // recompute the marks, which C17.e3.load.marks_recomputed.* covers with fully symbolic contents)
+    let mut buf: [u8; 4] = [7, 3, 9, 3];
+    buf[0] = kani::any();
+    let data = buf[..n].to_vec();
+    let bits: u8 = kani::any();
+    kani::assume(bits < 16);
+    let label: Option<u8> = if has_label { Some(kani::any()) } else { None };
+    let keys: Option<MapKeys> = if has_keys { Some(MapKeys { reversed: 0, token: kani::any() }) } else { None };
+    let meta = if absent {
+        ArrayMeta(None)
+    } else {
+        ArrayMeta(Some(Arc::new(ArrayMetaInner { label, flags: ArrayFlags(bits), map_keys: keys.clone(), ..Default::default() })))
+    };
+    let arr = Array { shape: Shape(shape.to_vec()), data: Data(data.clone()), meta };
+    let rep = ArrayRep::from(arr);
+    // the representation chosen never loses information the variant cannot carry
+    match &rep {
+        ArrayRep::Scalar(_) => assert!(shape.is_empty() && !has_label && !has_keys),
+        ArrayRep::List(_) => assert!(shape.len() == 1 && !has_label && !has_keys),
+        ArrayRep::Metaless(..) => assert!(!has_label && !has_keys),
+        ArrayRep::Map(..) => assert!(!has_label && has_keys),
+        ArrayRep::Full(..) => {}
+    }
+    let back: Array<u8> = Array::from(rep);
+    assert!(same_usize(&back.shape, shape));
+    assert!(same_u8(&back.data, &data));
+    assert!(back.meta.label == label);
+    assert!(back.meta.map_keys == keys);
+    assert!(!back.meta.flags.is_boolean());
+}
+//@ id=C17.e3.rep.roundtrip.scalar.nometa props=C17,C09 level=bounded tier=quick budget=600 bound="byte array of shape [], first element symbolic, the others fixed; label and map keys as opaque symbolic tokens; all 16 flag sets" desc="Array -> ArrayRep -> Array keeps shape, elements, label and map keys: shape [], meta nometa"
+#[kani::proof]
+#[kani::unwind(6)]
+fn h_rep_rt_scalar_nometa() {
+    ck_rep_roundtrip(&[], 1, true, false, false);
+}
+//@ id=C17.e3.rep.roundtrip.scalar.flags_only props=C17,C09 level=bounded tier=quick budget=600 bound="byte array of shape [], first element symbolic, the others fixed; label and map keys as opaque symbolic tokens; all 16 flag sets" desc="Array -> ArrayRep -> Array keeps shape, elements, label and map keys: shape [], meta flags_only"
+#[kani::proof]
+#[kani::unwind(6)]
+fn h_rep_rt_scalar_flags_only() {
+    ck_rep_roundtrip(&[], 1, false, false, false);
+}
+//@ id=C17.e3.rep.roundtrip.scalar.label props=C17,C09 level=bounded tier=quick budget=600 bound="byte array of shape [], first element symbolic, the others fixed; label and map keys as opaque symbolic tokens; all 16 flag sets" desc="Array -> ArrayRep -> Array keeps shape, elements, label and map keys: shape [], meta label"
+#[kani::proof]
+#[kani::unwind(6)]
+fn h_rep_rt_scalar_label() {
+    ck_rep_roundtrip(&[], 1, false, true, false);
+}
+//@ id=C17.e3.rep.roundtrip.scalar.map props=C17,C09 level=bounded tier=quick budget=600 bound="byte array of shape [], first element symbolic, the others fixed; label and map keys as opaque symbolic tokens; all 16 flag sets" desc="Array -> ArrayRep -> Array keeps shape, elements, label and map keys: shape [], meta map"
+#[kani::proof]
+#[kani::unwind(6)]
+fn h_rep_rt_scalar_map() {
+    ck_rep_roundtrip(&[], 1, false, false, true);
+}
+//@ id=C17.e3.rep.roundtrip.scalar.label_map props=C17,C09 level=bounded tier=quick budget=600 bound="byte array of shape [], first element symbolic, the others fixed; label and map keys as opaque symbolic tokens; all 16 flag sets" desc="Array -> ArrayRep -> Array keeps shape, elements, label and map keys: shape [], meta label_map"
+#[kani::proof]
+#[kani::unwind(6)]
+fn h_rep_rt_scalar_label_map() {
+    ck_rep_roundtrip(&[], 1, false, true, true);
+}
+//@ id=C17.e3.rep.roundtrip.empty_list.nometa props=C17,C09 level=bounded tier=thorough budget=600 bound="byte array of shape [0], first element symbolic, the others fixed; label and map keys as opaque symbolic tokens; all 16 flag sets" desc="Array -> ArrayRep -> Array keeps shape, elements, label and map keys: shape [0], meta nometa"
+#[kani::proof]
+#[kani::unwind(6)]
+fn h_rep_rt_empty_list_nometa() {
+    ck_rep_roundtrip(&[0], 0, true, false, false);
+}
+//@ id=C17.e3.rep.roundtrip.empty_list.flags_only props=C17,C09 level=bounded tier=thorough budget=600 bound="byte array of shape [0], first element symbolic, the others fixed; label and map keys as opaque symbolic tokens; all 16 flag sets" desc="Array -> ArrayRep -> Array keeps shape, elements, label and map keys: shape [0], meta flags_only"
+#[kani::proof]
+#[kani::unwind(6)]
+fn h_rep_rt_empty_list_flags_only() {
+    ck_rep_roundtrip(&[0], 0, false, false, false);
+}
+//@ id=C17.e3.rep.roundtrip.empty_list.label props=C17,C09 level=bounded tier=thorough budget=600 bound="byte array of shape [0], first element symbolic, the others fixed; label and map keys as opaque symbolic tokens; all 16 flag sets" desc="Array -> ArrayRep -> Array keeps shape, elements, label and map keys: shape [0], meta label"
+#[kani::proof]
+#[kani::unwind(6)]
+fn h_rep_rt_empty_list_label() {
+    ck_rep_roundtrip(&[0], 0, false, true, false);
+}
+//@ id=C17.e3.rep.roundtrip.empty_list.map props=C17,C09 level=bounded tier=thorough budget=600 bound="byte array of shape [0], first element symbolic, the others fixed; label and map keys as opaque symbolic tokens; all 16 flag sets" desc="Array -> ArrayRep -> Array keeps shape, elements, label and map keys: shape [0], meta map"
+#[kani::proof]
+#[kani::unwind(6)]
+fn h_rep_rt_empty_list_map() {
+    ck_rep_roundtrip(&[0], 0, false, false, true);
+}
+//@ id=C17.e3.rep.roundtrip.empty_list.label_map props=C17,C09 level=bounded tier=thorough budget=600 bound="byte array of shape [0], first element symbolic, the others fixed; label and map keys as opaque symbolic tokens; all 16 flag sets" desc="Array -> ArrayRep -> Array keeps shape, elements, label and map keys: shape [0], meta label_map"
+#[kani::proof]
+#[kani::unwind(6)]
+fn h_rep_rt_empty_list_label_map() {
+    ck_rep_roundtrip(&[0], 0, false, true, true);
+}
+//@ id=C17.e3.rep.roundtrip.list3.nometa props=C17,C09 level=bounded tier=quick budget=600 bound="byte array of shape [3], first element symbolic, the others fixed; label and map keys as opaque symbolic tokens; all 16 flag sets" desc="Array -> ArrayRep -> Array keeps shape, elements, label and map keys: shape [3], meta nometa"
+#[kani::proof]
+#[kani::unwind(6)]
+fn h_rep_rt_list3_nometa() {
+    ck_rep_roundtrip(&[3], 3, true, false, false);
+}
+//@ id=C17.e3.rep.roundtrip.list3.flags_only props=C17,C09 level=bounded tier=quick budget=600 bound="byte array of shape [3], first element symbolic, the others fixed; label and map keys as opaque symbolic tokens; all 16 flag sets" desc="Array -> ArrayRep -> Array keeps shape, elements, label and map keys: shape [3], meta flags_only"
+#[kani::proof]
+#[kani::unwind(6)]
+fn h_rep_rt_list3_flags_only() {
+    ck_rep_roundtrip(&[3], 3, false, false, false);
+}
+//@ id=C17.e3.rep.roundtrip.list3.label props=C17,C09 level=bounded tier=quick budget=600 bound="byte array of shape [3], first element symbolic, the others fixed; label and map keys as opaque symbolic tokens; all 16 flag sets" desc="Array -> ArrayRep -> Array keeps shape, elements, label and map keys: shape [3], meta label"
+#[kani::proof]
+#[kani::unwind(6)]
+fn h_rep_rt_list3_label() {
+    ck_rep_roundtrip(&[3], 3, false, true, false);
+}
+//@ id=C17.e3.rep.roundtrip.list3.map props=C17,C09 level=bounded tier=quick budget=600 bound="byte array of shape [3], first element symbolic, the others fixed; label and map keys as opaque symbolic tokens; all 16 flag sets" desc="Array -> ArrayRep -> Array keeps shape, elements, label and map keys: shape [3], meta map"
+#[kani::proof]
+#[kani::unwind(6)]
+fn h_rep_rt_list3_map() {
+    ck_rep_roundtrip(&[3], 3, false, false, true);
+}
+//@ id=C17.e3.rep.roundtrip.list3.label_map props=C17,C09 level=bounded tier=quick budget=600 bound="byte array of shape [3], first element symbolic, the others fixed; label and map keys as opaque symbolic tokens; all 16 flag sets" desc="Array -> ArrayRep -> Array keeps shape, elements, label and map keys: shape [3], meta label_map"
+#[kani::proof]
+#[kani::unwind(6)]
+fn h_rep_rt_list3_label_map() {
+    ck_rep_roundtrip(&[3], 3, false, true, true);
+}
+//@ id=C17.e3.rep.roundtrip.mat2x2.nometa props=C17,C09 level=bounded tier=quick budget=600 bound="byte array of shape [2, 2], first element symbolic, the others fixed; label and map keys as opaque symbolic tokens; all 16 flag sets" desc="Array -> ArrayRep -> Array keeps shape, elements, label and map keys: shape [2, 2], meta nometa"
+#[kani::proof]
+#[kani::unwind(6)]
+fn h_rep_rt_mat2x2_nometa() {
+    ck_rep_roundtrip(&[2, 2], 4, true, false, false);
+}
+//@ id=C17.e3.rep.roundtrip.mat2x2.flags_only props=C17,C09 level=bounded tier=quick budget=600 bound="byte array of shape [2, 2], first element symbolic, the others fixed; label and map keys as opaque symbolic tokens; all 16 flag sets" desc="Array -> ArrayRep -> Array keeps shape, elements, label and map keys: shape [2, 2], meta flags_only"
+#[kani::proof]
+#[kani::unwind(6)]
+fn h_rep_rt_mat2x2_flags_only() {
+    ck_rep_roundtrip(&[2, 2], 4, false, false, false);
+}
+//@ id=C17.e3.rep.roundtrip.mat2x2.label props=C17,C09 level=bounded tier=quick budget=600 bound="byte array of shape [2, 2], first element symbolic, the others fixed; label and map keys as opaque symbolic tokens; all 16 flag sets" desc="Array -> ArrayRep -> Array keeps shape, elements, label and map keys: shape [2, 2], meta label"
+#[kani::proof]
+#[kani::unwind(6)]
+fn h_rep_rt_mat2x2_label() {
+    ck_rep_roundtrip(&[2, 2], 4, false, true, false);
+}
+//@ id=C17.e3.rep.roundtrip.mat2x2.map props=C17,C09 level=bounded tier=quick budget=600 bound="byte array of shape [2, 2], first element symbolic, the others fixed; label and map keys as opaque symbolic tokens; all 16 flag sets" desc="Array -> ArrayRep -> Array keeps shape, elements, label and map keys: shape [2, 2], meta map"
+#[kani::proof]
+#[kani::unwind(6)]
+fn h_rep_rt_mat2x2_map() {
+    ck_rep_roundtrip(&[2, 2], 4, false, false, true);
+}
+//@ id=C17.e3.rep.roundtrip.mat2x2.label_map props=C17,C09 level=bounded tier=quick budget=600 bound="byte array of shape [2, 2], first element symbolic, the others fixed; label and map keys as opaque symbolic tokens; all 16 flag sets" desc="Array -> ArrayRep -> Array keeps shape, elements, label and map keys: shape [2, 2], meta label_map"
+#[kani::proof]
+#[kani::unwind(6)]
+fn h_rep_rt_mat2x2_label_map() {
+    ck_rep_roundtrip(&[2, 2], 4, false, true, true);
+}
+//@ id=C17.e3.rep.roundtrip.mat0x2.nometa props=C17,C09 level=bounded tier=thorough budget=600 bound="byte array of shape [0, 2], first element symbolic, the others fixed; label and map keys as opaque symbolic tokens; all 16 flag sets" desc="Array -> ArrayRep -> Array keeps shape, elements, label and map keys: shape [0, 2], meta nometa"
+#[kani::proof]
+#[kani::unwind(6)]
+fn h_rep_rt_mat0x2_nometa() {
+    ck_rep_roundtrip(&[0, 2], 0, true, false, false);
+}
+//@ id=C17.e3.rep.roundtrip.mat0x2.flags_only props=C17,C09 level=bounded tier=thorough budget=600 bound="byte array of shape [0, 2], first element symbolic, the others fixed; label and map keys as opaque symbolic tokens; all 16 flag sets" desc="Array -> ArrayRep -> Array keeps shape, elements, label and map keys: shape [0, 2], meta flags_only"
+#[kani::proof]
+#[kani::unwind(6)]
+fn h_rep_rt_mat0x2_flags_only() {
+    ck_rep_roundtrip(&[0, 2], 0, false, false, false);
+}
+//@ id=C17.e3.rep.roundtrip.mat0x2.label props=C17,C09 level=bounded tier=thorough budget=600 bound="byte array of shape [0, 2], first element symbolic, the others fixed; label and map keys as opaque symbolic tokens; all 16 flag sets" desc="Array -> ArrayRep -> Array keeps shape, elements, label and map keys: shape [0, 2], meta label"
+#[kani::proof]
+#[kani::unwind(6)]
+fn h_rep_rt_mat0x2_label() {
+    ck_rep_roundtrip(&[0, 2], 0, false, true, false);
+}
+//@ id=C17.e3.rep.roundtrip.mat0x2.map props=C17,C09 level=bounded tier=thorough budget=600 bound="byte array of shape [0, 2], first element symbolic, the others fixed; label and map keys as opaque symbolic tokens; all 16 flag sets" desc="Array -> ArrayRep -> Array keeps shape, elements, label and map keys: shape [0, 2], meta map"
+#[kani::proof]
+#[kani::unwind(6)]
+fn h_rep_rt_mat0x2_map() {
+    ck_rep_roundtrip(&[0, 2], 0, false, false, true);
+}
+//@ id=C17.e3.rep.roundtrip.mat0x2.label_map props=C17,C09 level=bounded tier=thorough budget=600 bound="byte array of shape [0, 2], first element symbolic, the others fixed; label and map keys as opaque symbolic tokens; all 16 flag sets" desc="Array -> ArrayRep -> Array keeps shape, elements, label and map keys: shape [0, 2], meta label_map"
+#[kani::proof]
+#[kani::unwind(6)]
+fn h_rep_rt_mat0x2_label_map() {
+    ck_rep_roundtrip(&[0, 2], 0, false, true, true);
+}
+//@ id=C17.e3.rep.roundtrip.rank3.nometa props=C17,C09 level=bounded tier=thorough budget=600 bound="byte array of shape [1, 1, 2], first element symbolic, the others fixed; label and map keys as opaque symbolic tokens; all 16 flag sets" desc="Array -> ArrayRep -> Array keeps shape, elements, label and map keys: shape [1, 1, 2], meta nometa"
+#[kani::proof]
+#[kani::unwind(6)]
+fn h_rep_rt_rank3_nometa() {
+    ck_rep_roundtrip(&[1, 1, 2], 2, true, false, false);
+}
+//@ id=C17.e3.rep.roundtrip.rank3.flags_only props=C17,C09 level=bounded tier=thorough budget=600 bound="byte array of shape [1, 1, 2], first element symbolic, the others fixed; label and map keys as opaque symbolic tokens; all 16 flag sets" desc="Array -> ArrayRep -> Array keeps shape, elements, label and map keys: shape [1, 1, 2], meta flags_only"
+#[kani::proof]
+#[kani::unwind(6)]
+fn h_rep_rt_rank3_flags_only() {
+    ck_rep_roundtrip(&[1, 1, 2], 2, false, false, false);
+}
+//@ id=C17.e3.rep.roundtrip.rank3.label props=C17,C09 level=bounded tier=thorough budget=600 bound="byte array of shape [1, 1, 2], first element symbolic, the others fixed; label and map keys as opaque symbolic tokens; all 16 flag sets" desc="Array -> ArrayRep -> Array keeps shape, elements, label and map keys: shape [1, 1, 2], meta label"
+#[kani::proof]
+#[kani::unwind(6)]
+fn h_rep_rt_rank3_label() {
+    ck_rep_roundtrip(&[1, 1, 2], 2, false, true, false);
+}
+//@ id=C17.e3.rep.roundtrip.rank3.map props=C17,C09 level=bounded tier=thorough budget=600 bound="byte array of shape [1, 1, 2], first element symbolic, the others fixed; label and map keys as opaque symbolic tokens; all 16 flag sets" desc="Array -> ArrayRep -> Array keeps shape, elements, label and map keys: shape [1, 1, 2], meta map"
+#[kani::proof]
+#[kani::unwind(6)]
+fn h_rep_rt_rank3_map() {
+    ck_rep_roundtrip(&[1, 1, 2], 2, false, false, true);
+}
+//@ id=C17.e3.rep.roundtrip.rank3.label_map props=C17,C09 level=bounded tier=thorough budget=600 bound="byte array of shape [1, 1, 2], first element symbolic, the others fixed; label and map keys as opaque symbolic tokens; all 16 flag sets" desc="Array -> ArrayRep -> Array keeps shape, elements, label and map keys: shape [1, 1, 2], meta label_map"
+#[kani::proof]
+#[kani::unwind(6)]
+fn h_rep_rt_rank3_label_map() {
+    ck_rep_roundtrip(&[1, 1, 2], 2, false, true, true);
+}
+//@ id=C17.e3.rep.canary props=C17 level=bounded tier=quick expect=fail budget=600 desc="deliberately false: the boolean mark survives serialisation"
+#[kani::proof]
+#[kani::unwind(10)]
+fn h_rep_canary() {
+    let meta = ArrayMeta(Some(Arc::new(ArrayMetaInner { flags: ArrayFlags::BOOLEAN, ..Default::default() })));
+    let arr = Array { shape: Shape(vec![2]), data: Data(vec![0u8, 1]), meta };
+    let back: Array<u8> = Array::from(ArrayRep::from(arr));
+    assert!(back.meta.flags.is_boolean());
+}
 //@ id=C05.e3.meta.mark_helpers props=C05,C09 level=complete tier=quick budget=600 desc="ArrayMeta mark helpers at the bit level: take_sorted_flags / take_value_flags return and clear exactly their group; or_sorted_flags sets only sortedness bits; mark_sorted_* set or clear exactly one bit; reset_flags clears all; an absent meta stays absent unless a bit must be set"
 #[kani::proof]
 fn h_meta_helpers() {
     let bits: u8 = kani::any();
     kani::assume(bits < 16);
     let f0 = ArrayFlags(bits);
-    let mk = |present: bool| if present { ArrayMeta(Some(Arc::new(ArrayMetaInner { flags: f0, map_keys: None }))) } else { ArrayMeta(None) };
+    let mk = |present: bool| if present { ArrayMeta(Some(Arc::new(ArrayMetaInner { flags: f0, map_keys: None, ..Default::default() }))) } else { ArrayMeta(None) };
     let present: bool = kani::any();
     let start = if present { f0 } else { ArrayFlags::NONE };
     let mut m = mk(present);
